@@ -5,7 +5,7 @@
 From Coq Require Import String ZArith NArith List Bool Reals.
 From Tangelo Require Import Num.KStruct Num.CReal Num.Cyc QSem.State QSem.StateLemmas QSem.CircuitLemmas QSem.Commute.
 From Tangelo Require Import Linq.GateModel Linq.CircuitModel Linq.History Linq.CircuitProofs Linq.Interp
-     Linq.InterpProofs Linq.PassLemmas Linq.Clifford Linq.RealInst Linq.LinqZ.
+     Linq.InterpProofs Linq.PassLemmas Linq.Clifford Linq.RealInst Linq.LinqZ Linq.Equiv Linq.SmallRot.
 From Gen Require Import GateTables CliffordTables.
 Import ListNotations.
 Open Scope string_scope.
@@ -103,20 +103,65 @@ Theorem C09_out_of_place_leave_input :
 Proof. exact read_only_ops_unchanged. Qed.
 Print Assumptions C09_out_of_place_leave_input.
 
-(* ---- witnesses on the faithful model of the current source (exact, in the cyclotomic instance) ---- *)
-(* the model of remove_small_rotations drops CRZ(2*pi) (16 units of pi/8) although, by theorem 6',
-   it is not the identity up to phase *)
-Example C09_remove_small_ctrl_refuted :
-  exists c c', build Z gtables [G "H" [1%Z] None PNone false; G "CRZ" [0%Z] (Some [1%Z]) (PNum 16%Z) false] None = Ok c
-    /\ remove_small_rotations Z (zsmall small_modulus_units) gtables c false = Ok c'
-    /\ map (fun g => pname g) (cgates Z c') = ["H"].
+(* 9. remove_small_rotations (model over the regenerated tables: names, short period 2*pi, long period
+      4*pi for the names in small_long), on the exact angle grid k*pi/8: every dropped gate is the
+      identity or — only without controls — minus the identity; the kept gates denote the original
+      operation up to ONE global sign, for every circuit.  The side condition on the tables (every
+      controlled rotation subject to dropping uses the long period) is checked on the regenerated
+      tables: it FAILS for the original source (period 2*pi for all), which is the defect repaired by
+      the fix: commit (see C09_rot_2pi_controlled). *)
+Theorem C09_small_tables_ok : small_tables_ok gtables = true
+                              /\ small_modulus_units = 16%Z /\ small_modulus_long_units = 32%Z.
+Proof. vm_compute. repeat split. Qed.
+Print Assumptions C09_small_tables_ok.
+
+Theorem C09_remove_small_rotations_sound :
+  forall (gs gs' : list zgate) C,
+    Forall ctrl_ok gs ->
+    filterM (is_small gtables small_modulus_units small_modulus_long_units) gs = Ok gs' ->
+    cy_interp_all gs = Some C ->
+    exists C' neg, cy_interp_all gs' = Some C'
+                   /\ forall psi, den CycS C psi = sscale CycS (sgn neg) (den CycS C' psi).
+Proof.
+  intros gs gs' C. apply (remove_small_sound gtables gs gs' C).
+  exact (proj1 C09_small_tables_ok).
+Qed.
+Print Assumptions C09_remove_small_rotations_sound.
+
+(* 10. what "the angle is a multiple of the period" means, for every real angle and any controls:
+       cis a = e^{i a/2} = 1 (a = 0 mod 4*pi) makes every rotation the identity *)
+Theorem C09_rot_4pi_identity :
+  forall k (a : R) q cs psi, @cis RS a = @k1 RS -> den_gate RS (rot_gate RS k a q cs) psi = psi.
+Proof. exact (rot_cis1_identity RS). Qed.
+Print Assumptions C09_rot_4pi_identity.
+
+(* ---- witnesses (exact, cyclotomic instance, regenerated tables) ---- *)
+(* the repaired source keeps CRZ(2*pi) and drops CRZ(4*pi) and RZ(2*pi) *)
+Example C09_remove_small_keeps_ctrl_2pi :
+  exists c c', build Z gtables [G "H" [1%Z] None PNone false; G "CRZ" [0%Z] (Some [1%Z]) (PNum 16%Z) false;
+                                G "CRZ" [0%Z] (Some [1%Z]) (PNum 32%Z) false; G "RZ" [0%Z] None (PNum 16%Z) false] None = Ok c
+    /\ remove_small_rotations Z (zsmall small_modulus_units small_modulus_long_units) gtables c false = Ok c'
+    /\ map (fun g => show_gate g) (cgates Z c') = ["H(1;N;_;F)"; "CRZ(0;1;16;F)"].
 Proof. do 2 eexists. vm_compute. repeat split. Qed.
 
-(* Gate.__eq__ says CRX(0) == CRX(2*pi) *)
-Example C09_gate_eq_ctrl_refuted :
-  gate_eq Z (zeqmod eq_modulus_units) (G "CRX" [0%Z] (Some [1%Z]) (PNum 0%Z) false)
-                                        (G "CRX" [0%Z] (Some [1%Z]) (PNum 16%Z) false) = true.
-Proof. vm_compute. reflexivity. Qed.
+(* Gate.__eq__ (repaired): CRX(0) <> CRX(2*pi), CRX(0) == CRX(4*pi), RX(0) == RX(2*pi) *)
+Example C09_gate_eq_periods :
+  gate_eq Z (zeqmod eq_modulus_units eq_modulus_long_units) gtables
+          (G "CRX" [0%Z] (Some [1%Z]) (PNum 0%Z) false) (G "CRX" [0%Z] (Some [1%Z]) (PNum 16%Z) false) = false
+  /\ gate_eq Z (zeqmod eq_modulus_units eq_modulus_long_units) gtables
+          (G "CRX" [0%Z] (Some [1%Z]) (PNum 0%Z) false) (G "CRX" [0%Z] (Some [1%Z]) (PNum 32%Z) false) = true
+  /\ gate_eq Z (zeqmod eq_modulus_units eq_modulus_long_units) gtables
+          (G "RX" [0%Z] None (PNum 0%Z) false) (G "RX" [0%Z] None (PNum 16%Z) false) = true.
+Proof. vm_compute. repeat split. Qed.
+
+(* the exact comparison used by the correspondence confirms the semantics of the witnesses:
+   CRZ(2*pi) after H on its control is NOT the identity up to phase; CRZ(4*pi) is *)
+Example C09_ctrl_2pi_not_identity :
+  compare_circuits 2 [G "H" [1%Z] None PNone false; G "CRZ" [0%Z] (Some [1%Z]) (PNum 16%Z) false]
+                     [G "H" [1%Z] None PNone false] = "N"
+  /\ compare_circuits 2 [G "H" [1%Z] None PNone false; G "CRZ" [0%Z] (Some [1%Z]) (PNum 32%Z) false]
+                        [G "H" [1%Z] None PNone false] = "E".
+Proof. vm_compute. repeat split. Qed.
 
 (* non-vacuity of theorem 1: a concrete circuit with controls, S, T and real angles *)
 Example C09_inverse_nonvacuous :
@@ -124,4 +169,8 @@ Example C09_inverse_nonvacuous :
                                 PGate "CRX" [1%Z] (Some [0%Z; 2%Z]) (PNum (PI / 3)%R) true;
                                 PGate "XX" [0%Z; 2%Z] None (PNum 1%R) false] None = Ok c
                /\ rinverse c = Ok c' /\ length (cgates R c') = 4.
-Proof. do 2 eexists. repeat split. Qed.
+Proof.
+  (* real-number constants must stay folded: cbv with the arithmetic of R kept opaque *)
+  do 2 eexists. split; [cbv - [Ropp Rmult Rdiv Rinv Rplus Rminus IZR PI of_units]; reflexivity|].
+  split; [cbv - [Ropp Rmult Rdiv Rinv Rplus Rminus IZR PI of_units]; reflexivity | reflexivity].
+Qed.
